@@ -141,3 +141,11 @@ META["C09"] = dict(
     text="Theorems C09_loop, C09_unchanged, C09_nothing_after_done, C09_cadence: the loop evaluates the rate at once and then once per received tick, each evaluation's value is exactly the following request, nothing is evaluated or requested after the context ended, and for any scheduling delays at most 1 + floor(e/interval) evaluations happen within elapsed time e, given that the j-th received tick is not earlier than j intervals after the first evaluation.",
     note="Trusted: Coq kernel; the Go ticker's behaviour (never early, capacity-one channel) is a hypothesis of the cadence theorem, observed one-sidedly by the harness; wall-clock accuracy is the runtime's; extraction + driver; harness.",
 )
+
+META["C05"] = dict(
+    design_ref="DESIGN.md section 5, C05",
+    technique="Coq proofs: run-level labelled transition model (main goroutine of Run.Do, progress goroutine, writer-preferring RWMutex, environment events) whose invariant, deadlock-freedom and quiescence are established by exhaustive evaluation inside the kernel over the finite set of invariant states and lifted to all reachable states; pool-level progress and no-accept-after-stop from the pool invariants; machine-checked wedging schedule for the pinned Stop; correspondence by a mode x ending x body-pattern matrix of real runs judged by an extracted predicate, and a gate script on sources instrumented from the working tree plus a sync-op drift check",
+    text="Theorems C05_no_deadlock, C05_quiescent, C05_wait_bounded, C05_stop_points, C05_pool_progress: in every reachable run-level state Do has returned, or main waits for an environment event (ending, pool completion, completion timeout), or a goroutine can move - the nested read locks of the final rendering can never be cut by a late progress tick; at the return the progress goroutine has exited, holds no lock and has not run since; the wait for in-flight iterations ends with the timeout; once the pool is told to stop no request is accepted; with the context cancelled the pool never deadlocks (no lost wake-up). "
+         "Refuted/C05_pinned.v proves the pinned code wedges. Partial: termination is deadlock-freedom + environment obligations, not a ranking function; timer punctuality is the runtime's.",
+    note="Trusted: Coq kernel (vm_compute for the finite enumerations); RWMutex/Cond/channel/timer semantics as modelled; the pool is abstracted at run level; real interleavings are sampled except for the scripted late-tick history; extraction + driver; harness; tools/instrument. Known finding (KNOWN_FINDINGS.txt): a users stage of a config file waits for its workers without bound.",
+)
